@@ -25,7 +25,8 @@ THEOREMS = [P + t for t in (
     "arm_untouched", "arm_untouched_needs_fresh", "store_run_is_genAdm",
     "rekey_only_key", "rekey_ok_all", "rekey_partition_ok", "rekey_partition_entry",
     "rekey_compose", "rekey_present_key_id", "rekey_twice_same", "rekey_there_and_back", "rekey_store_frame",
-    "closure_in_partition", "holder_in_partition_unique")] + [
+    "closure_in_partition", "holder_in_partition_unique",
+    "earlier_partitions_persist", "earlier_partitions_need_fresh")] + [
     # the loop of the repaired generate_adms: termination bound and closedness (Proofs/Lemmas/C13Closure.lean)
     "FimVerif.Arm.linkClose_closed", "FimVerif.Arm.linkClose_sound", "FimVerif.Arm.linkClose_reach"]
 TRUSTED_BASE = [
@@ -58,6 +59,14 @@ RULE = ("(a) 2400 (quick) / 14000 (thorough) small synthetic ARMs written straig
         "nodes) annotated through annotate_delegations_and_pools with 1..3 ids, changed through the topology object between partitions; "
         "(c) the four repo advertisements, corner graphs, corpus. Every partition is also taken through a fresh wrapper where a history is run; partitions "
         "are re-keyed in chains (own graph id twice, present key, a->b->a; delegations named after their graph id). "
+        "(d) several generate_adms calls in one process: every 8th synthetic case and every 2nd API-built one partitions a SECOND model of the same store "
+        "(another generated model, the first one under other element ids, or a second SubstrateTopology) that shares delegation names with the first, "
+        "after 1-3 partitions of the first; graph ids are left to generate_adms in every way a caller can (argument left out, None, {}, a dictionary "
+        "naming only some delegation names), handed in, or handed in for one call and left out for the next; the dictionaries handed in and returned are "
+        "scribbled afterwards; every partition object returned during a run is read again after the last call: unchanged unless the caller handed its "
+        "graph id to a later call, no generated graph id handed out twice, none the id of a model; a call refused on an emptied model followed by a "
+        "partition of the refilled model through the same ARM object; 6% of the synthetic cases under falsy / sentinel-like / case- and blank-related "
+        "delegation names ('', '0', 'None', 'null', ' d1', 'D1' ...), also as re-key targets. "
         "non-trivial = at least 2 delegation ids; distinct by canonical ARM snapshot")
 
 CP, LINK, NS, NN, COMP = "ConnectionPoint", "Link", "NetworkService", "NetworkNode", "Component"
@@ -209,7 +218,62 @@ CORNER_HISTORIES = [
                         ["wq", "lq", "connects", []], ["lq", "sq", "connects", []]]},
      "history": [[["add_node", "lp", LINK, [], None, None], ["add_link", "wp", "connects", "lp"], ["add_link", "lp", "connects", "sp"]],
                  [["del_node", "lq"], ["add_node", "w2", NN, [], None, [["d2", "{\"pool\":\"p\"}"]]]]]},
+    # a call that fails (every node was deleted: the empty model is refused), then the model is filled again - other elements, another
+    # delegation name - and the same ARM object partitions it
+    {"wire": {"nodes": [["a", NN, [["Name", "a"]], None, [["d1", "{\"pool\":\"p\"}"]]], ["b", COMP, [], None, [["d1", "{\"pool\":\"p\"}"]]]],
+              "edges": [["a", "b", "has", []]]},
+     "history": [[["del_node", "a"], ["del_node", "b"]],
+                 [["add_node", "x", NN, [["Name", "x"]], None, [["d2", "{\"pool\":\"p\"}"]]], ["add_node", "y", COMP, [], [["d1", "{\"pool\":\"q\"}"]], None],
+                  ["add_node", "a", NN, [["Name", "a2"]], None, None], ["add_link", "x", "has", "y"]]]},
 ]
+
+
+# two models of one process that use the same delegation names, partitioned one after the other (every site of a testbed has e.g. a
+# 'primary' delegation); graph ids left to generate_adms in every way a caller can leave them to it
+def _site(px, extra=False):
+    e = "{\"pool\":\"p\"}"
+    nodes = [[px + "w", NN, [["Name", px + "w"]], None, [["primary", e]]], [px + "nic", COMP, [], None, [["primary", e]]],
+             [px + "sf", NS, [], None, None], [px + "p1", CP, [], [["primary", e]], None],
+             [px + "v", NN, [["Name", px + "v"]], None, [["secondary", e]]],
+             [px + "sw", NN, [["StitchNode", "true"]], None, None], [px + "swns", NS, [["StitchNode", "true"]], None, None],
+             [px + "sp", CP, [["StitchNode", "true"]], None, None], [px + "l", LINK, [], None, None]]
+    edges = [[px + "w", px + "nic", "has", []], [px + "nic", px + "sf", "has", []], [px + "sf", px + "p1", "connects", []],
+             [px + "p1", px + "l", "connects", []], [px + "l", px + "sp", "connects", []], [px + "swns", px + "sp", "connects", []],
+             [px + "sw", px + "swns", "has", []]]
+    if extra:
+        nodes.append([px + "w3", NN, [["Name", px + "w3"]], None, [["primary", e]]])
+    return {"nodes": nodes, "edges": edges}
+
+
+CORNER_SECOND = [
+    {"wire": _site("A-"), "second": {"wire": _site("B-", True)}, "guids": "default"},
+    {"wire": _site("A-"), "second": {"wire": _site("A-", True)}, "guids": "uuid"},           # the same element ids in both models
+    {"wire": _site("A-"), "second": {"wire": _site("B-", True)}, "guids": "emptydict"},
+    {"wire": _site("A-"), "second": {"wire": _site("B-", True)}, "guids": "partial"},
+    {"wire": _site("A-"), "second": {"wire": _site("B-", True)}, "guids": "explicit"},
+    {"wire": _site("A-"), "second": {"wire": _site("B-", True)}, "guids": "mix:explicit,default"},
+    {"wire": _site("A-"), "second": {"wire": _site("B-", True)}, "guids": "mix:default,explicit"},
+]
+
+DEFAULTED = ("default", "uuid", "emptydict")      # every graph id is left to generate_adms
+
+# delegation names that are falsy, look like a sentinel, or differ from each other in case / blanks only
+ODD_NAMES = ["", "0", "None", "null", "false", " d1", "D1", "d1 ", "primary", "d", "[]"]
+
+
+def rename_del_ids(c, mp):
+    """the same case under other delegation names (wire, second model, history ops)"""
+    def dp(v):
+        return [[mp.get(k, k), e] for k, e in v] if isinstance(v, list) else v
+
+    def wire(w):
+        return {"nodes": [[n[0], n[1], n[2], dp(n[3]), dp(n[4])] for n in w["nodes"]], "edges": w["edges"]}
+    c["wire"] = wire(c["wire"])
+    if isinstance(c.get("second"), dict):
+        c["second"] = {"wire": wire(c["second"]["wire"])}
+    if c.get("history"):
+        c["history"] = [[(op[:4] + [dp(op[4]), dp(op[5])]) if op[0] == "add_node" else (op[:3] + [dp(op[3])]) if op[0] == "set_del" else op
+                         for op in ops] for ops in c["history"]]
 
 
 def gen_cases(ctx, rng, n, nsynth=0):
@@ -219,6 +283,9 @@ def gen_cases(ctx, rng, n, nsynth=0):
         cases.append({"kind": "raw", "name": "corner%d" % i, "wire": w})
     for i, h in enumerate(CORNER_HISTORIES):
         cases.append({"kind": "raw", "name": "history%d" % i, "wire": h["wire"], "history": h["history"], "guids": "named" if i % 2 else "explicit"})
+    for i, h in enumerate(CORNER_SECOND):
+        cases.append({"kind": "raw", "name": "second%d" % i, "wire": h["wire"], "second": h["second"], "guids": h["guids"], "rounds": 2,
+                      "bystander": False})
     for p in corpus_files():
         if p.endswith(".graphml"):
             cases.append({"kind": "ad", "file": p, "rounds": 1 if not ctx.thorough else 2})
@@ -226,7 +293,8 @@ def gen_cases(ctx, rng, n, nsynth=0):
             with open(p) as f:
                 c = json.load(f)
             cases.append({"kind": "raw", "name": os.path.basename(p), "wire": c["wire"], "guids": c.get("guids"),
-                          **({"history": c["history"]} if c.get("history") else {})})
+                          **({"history": c["history"]} if c.get("history") else {}),
+                          **({"second": c["second"]} if c.get("second") else {})})
     for i in range(n):
         r = rng.random()
         if r < 0.25:
@@ -237,7 +305,7 @@ def gen_cases(ctx, rng, n, nsynth=0):
             mode = "single" if rng.random() < 0.12 else "mixed"
             cases.append({"kind": "gen", "seed": "%s/%d/%d" % (ctx.seed, i, rng.randrange(10 ** 6)), "size": size,
                           "ids": ["alpha", "beta", "gamma"][:k] if mode == "mixed" else ["primary"], "mode": mode,
-                          **({} if ctx.thorough else {"rounds": 2})})
+                          **({} if ctx.thorough else {"rounds": 2}), **({"second": "build"} if i % 2 == 0 else {})})
     # the cheap stream: small synthetic ARMs written straight into the store (lib_armsynth), one partition each; every 8th with the
     # run on the store (bystander graph) and re-key chains, every 16th as a 3-partition history on the same ARM object
     for i in range(nsynth):
@@ -251,14 +319,36 @@ def gen_cases(ctx, rng, n, nsynth=0):
         if i % 32 == 5:
             c.update(history=SY.synth_history(rng, w, 2), fresh=True)
             del c["rounds"]
+        if i % 8 == 2:
+            # a SECOND model in the same process (another generated model, or this one under other element ids), partitioned
+            # after this one; every 16th with two partitions of the first model before that
+            c["second"] = {"wire": SY.synth_case(rng, tiny=True)[0]} if rng.random() < 0.6 else "derive"
+            if i % 16 == 2:
+                c["rounds"] = 2
+        if rng.random() < 0.06:
+            rename_del_ids(c, dict(zip(SY.IDS, rng.sample(ODD_NAMES, len(SY.IDS)))))
+            c["features"] = dict(c["features"], **{"ids:odd-delegation-names": 1})
         cases.append(c)
     # graph-id assignment: explicit distinct ids (most), default uuid4, the delegation's own name ("named": the key is already the
     # graph id when the partition is re-keyed), or - single delegation id only - the ARM's own id
     for c in cases:
         r = rng.random()
         if c.get("guids") is None:
-            c["guids"] = "uuid" if r < 0.15 else "self" if r < 0.22 else "named" if r < 0.4 else "explicit"
-        c["bystander"] = rng.random() < 0.5 and c.get("store", True)
+            if c.get("second") or c.get("rounds", 3) > 1 or c.get("history"):
+                # several generate_adms calls in the run: the graph ids are left to generate_adms in half of the runs
+                # (or to the caller in one call and to generate_adms in the next: "mix:")
+                c["guids"] = ("default" if r < 0.25 else "uuid" if r < 0.33 else "emptydict" if r < 0.37 else "partial" if r < 0.45 else
+                              "mix:explicit,default" if r < 0.5 else "mix:default,explicit" if r < 0.53 else "mix:named,default" if r < 0.56 else
+                              "self" if r < 0.6 else "named" if r < 0.75 else "explicit")
+            else:
+                c["guids"] = ("default" if r < 0.08 else "uuid" if r < 0.13 else "emptydict" if r < 0.15 else "partial" if r < 0.2 else
+                              "self" if r < 0.27 else "named" if r < 0.42 else "explicit")
+        if c.get("features", {}).get("ids:odd-delegation-names") and "named" in str(c["guids"]):
+            c["guids"] = "explicit"         # a graph id '' is not a sensible thing to ask for; re-keying TO such a name is still exercised
+        if "bystander" not in c:
+            c["bystander"] = rng.random() < 0.5 and c.get("store", True)
+        else:
+            rng.random()
         c.setdefault("rounds", 3)
     return cases
 
@@ -426,6 +516,15 @@ def mutate_topo(sub, rng, k, ids, snap):
 # one run of the real code: partition / re-key chains / change / partition again ...
 
 
+def mode_of(c, k):
+    """how the graph ids of the k-th generate_adms call of a run are chosen; "mix:a,b": a for the first call, b for every later one"""
+    m = c["guids"]
+    if isinstance(m, str) and m.startswith("mix:"):
+        seq = m[4:].split(",")
+        return seq[min(k, len(seq) - 1)]
+    return m
+
+
 def _guids_for(mode, ids, arm_id, prefix):
     if isinstance(mode, dict):
         return mode
@@ -435,13 +534,20 @@ def _guids_for(mode, ids, arm_id, prefix):
         return {d: d for d in ids} if prefix == "adm-of-" else {d: prefix + d for d in ids}
     if mode == "self" and len(ids) == 1 and prefix == "adm-of-":
         return {ids[0]: arm_id}
+    if mode == "emptydict":
+        return {}
+    if mode == "partial":
+        return {d: prefix + d for d in ids[:max(1, len(ids) // 2)]}       # the other delegation names get generated ids
     return None
 
 
-def _partition(arm, guids):
-    """-> dict(adms, adm_ids) or dict(error, where, msg); second element the graph objects"""
+def _partition(arm, guids, mode=None):
+    """-> dict(adms, adm_ids) or dict(error, where, msg); second element the graph objects. mode "default": the argument is left out"""
     try:
-        adms = arm.generate_adms(delegation_guids=guids)
+        if mode == "default" and guids is None:
+            adms = arm.generate_adms()
+        else:
+            adms = arm.generate_adms(delegation_guids=guids)
     except Exception as e:
         tb = traceback.extract_tb(e.__traceback__)
         return {"error": err_kind(e), "where": tb[-1].name if tb else "?", "msg": str(e)[:200]}, {}
@@ -469,6 +575,7 @@ def run_impl(c):
         load_raw({"nodes": [n for n in to_wire(first)["nodes"] if n[0] in some], "edges": []}, "bystander", imp)
     arm = sub.arm() if sub is not None else NetworkXARMGraph(graph=g)      # THE ARM object, used for every round
     out = {"arm_id": arm_id, "rounds": []}
+    kept, stop = [], False      # (round, the partition objects generate_adms returned in it): re-read when everything is over
     history = c.get("history")
     nrounds = 1 + len(history) if history is not None else c.get("rounds", 3)
     for k in range(nrounds):
@@ -490,15 +597,19 @@ def run_impl(c):
             rd["ops"] = diff_ops(prev, L.snapshot(g))
         before = L.snapshot(g)
         rd.update(before=before, order=list(before["nodes"]), ids=del_ids(before))
-        guids = _guids_for(c["guids"], rd["ids"], arm_id, "adm-of-")
-        rd["guids"] = guids
+        guids = _guids_for(mode_of(c, k), rd["ids"], arm_id, "adm-of-")
+        rd["guids"] = dict(guids) if isinstance(guids, dict) else guids        # what was asked for (the dictionary itself is scribbled below)
         want_store = k == 0 and c.get("store", True)
         if want_store:
             rd["store_before"] = {x: norm(L.snapshot(g, x)) for x in L.store_graph_ids(imp)}
-        rd["same"], adms = _partition(arm, guids)
+        rd["same"], adms = _partition(arm, guids, mode_of(c, k))
         rd["arm_after"] = L.snapshot(g)
         out["rounds"].append(rd)
+        kept.append((rd, dict(adms)))
         if "error" in rd["same"]:
+            if not before["nodes"] and k + 1 < nrounds:
+                continue            # the empty model is refused by design: the SAME ARM object goes on after the failed call
+            stop = True
             break
         own = arm_id in rd["same"]["adm_ids"].values()
         if want_store:
@@ -517,10 +628,17 @@ def run_impl(c):
                         raised = False
                     except Exception as e:
                         raised = err_kind(e)
-                    steps.append([x or a.graph_id, raised, L.snapshot(adm)])
+                    steps.append([a.graph_id if x is None else x, raised, L.snapshot(adm)])
                 rd["rekey"][d] = steps
             rd["store_post_rekey"] = {x: norm(L.snapshot(g, x)) for x in L.store_graph_ids(imp)}
+        rd["kept_end"] = {d: L.snapshot(a) for d, a in adms.items()}       # the partitions as this round leaves them
+        if c.get("scribble", True):
+            adms.clear()            # the caller's dictionary now: nothing generate_adms does later may depend on it
+            if isinstance(guids, dict):
+                for d in list(guids):
+                    guids[d] = arm_id       # ... nor on the dictionary of graph ids handed in: remembered, it would now name the model itself
         if own:
+            stop = True
             break
         if not c.get("fresh", True):
             continue
@@ -528,15 +646,59 @@ def run_impl(c):
         fresh = NetworkXARMGraph(graph=NetworkXPropertyGraph(graph_id=arm_id, importer=imp))
         rd["fresh"], _ = _partition(fresh, _guids_for("explicit", rd["ids"], arm_id, "fresh-of-"))
         rd["arm_after_fresh"] = L.snapshot(g)
+    second = c.get("second")
+    if second and not stop:
+        # a SECOND model in the same store / process that uses (some of) the same delegation names, partitioned the same way
+        first_now = L.snapshot(g)
+        if second == "build" and sub is not None:
+            rng2 = random.Random("C13gen2/" + c["seed"])
+            keep_store, L.fresh_store = L.fresh_store, (lambda: None)      # L.build starts from an empty store: not this time
+            try:
+                sub2 = L.build(rng2, min(c["size"], 1), tag="n")
+            finally:
+                L.fresh_store = keep_store
+            L.annotate(sub2, rng2, c["ids"], c["mode"])
+            g2, arm2 = sub2.graph, sub2.arm()
+        else:
+            w2 = second["wire"] if isinstance(second, dict) else rename_wire(to_wire(first_now), "B-")
+            g2 = load_raw(w2, "arm-graph-2", imp)
+            arm2 = NetworkXARMGraph(graph=g2)
+        before2 = L.snapshot(g2)
+        rd = {"change": "second-model", "arm_id": g2.graph_id, "before": before2, "order": list(before2["nodes"]), "ids": del_ids(before2)}
+        rd["guids"] = _guids_for(mode_of(c, nrounds), rd["ids"], g2.graph_id, "adm2-of-")
+        if before2["nodes"]:
+            rd["store_before"] = {x: norm(L.snapshot(g, x)) for x in L.store_graph_ids(imp)}
+            rd["same"], adms2 = _partition(arm2, rd["guids"], mode_of(c, nrounds))
+            rd["arm_after"] = L.snapshot(g2)
+            if "error" not in rd["same"]:
+                rd["store_after"] = {x: norm(L.snapshot(g, x)) for x in L.store_graph_ids(imp)}
+                rd["kept_end"] = {d: L.snapshot(a) for d, a in adms2.items()}
+            kept.append((rd, adms2))
+            out["second"] = rd
+            out["first_before_second"], out["first_after_second"] = first_now, L.snapshot(g)
+    # every partition object handed out during the run, read once more now that all the calls have been made
+    out["final"] = [{d: L.snapshot(a) for d, a in adms.items()} for _, adms in kept]
     return out
+
+
+def rename_wire(w, px):
+    """the same model under other element ids"""
+    return {"nodes": [[px + n[0]] + list(n[1:]) for n in w["nodes"]], "edges": [[px + e[0], px + e[1]] + list(e[2:]) for e in w["edges"]]}
+
+
+def calls_of(r):
+    """the generate_adms calls of a run whose partitions were kept, in the order they were made"""
+    return list(r["rounds"]) + ([r["second"]] if "second" in r else [])
 
 
 def case_payload(c, r, upto):
     """self-contained replay payload: the first ARM as a raw graph plus the changes as raw ops"""
     r0 = r["rounds"][0]
-    return {"wire": to_wire(r0["before"], r0["order"]), "guids": c["guids"] if c["guids"] in ("explicit", "named", "uuid", "self") or isinstance(c["guids"], dict) else "uuid",
+    return {"wire": to_wire(r0["before"], r0["order"]), "guids": c["guids"] if c["guids"] in ("explicit", "named", "uuid", "self", "default", "emptydict", "partial") or isinstance(c["guids"], dict)
+            or str(c["guids"]).startswith("mix:") else "uuid",
             "history": [rd.get("ops", []) for rd in r["rounds"][1:upto + 1]],
-            "descr": {k: v for k, v in c.items() if k not in ("wire", "history")}}
+            **({"second": {"wire": to_wire(r["second"]["before"], r["second"]["order"])}} if "second" in r and upto >= len(r["rounds"]) - 1 else {}),
+            "descr": {k: v for k, v in c.items() if k not in ("wire", "history", "second")}}
 
 
 # ---------------------------------------------------------------------------
@@ -597,7 +759,15 @@ def correspondence(ctx, res):
         res.count("rounds:%d" % len(r["rounds"]))
         for f, v in c.get("features", {}).items():
             res.count("synth:" + f)
-        for k, rd in enumerate(r["rounds"]):
+        if "second" in r:
+            res.count("second-model:%s:guids-%s" % ("built" if c["second"] == "build" else "derived" if c["second"] == "derive" else "given",
+                                                    c["guids"]))
+            shared = set(r["second"]["ids"]) & {d for rd in r["rounds"] for d in rd["ids"]}
+            res.count("second-model:shares-%s-delegation-names" % ("no" if not shared else "some"))
+        for k, rd in enumerate(calls_of(r)):
+            if "same" not in rd:
+                continue
+            this_arm = rd.get("arm_id", r["arm_id"])
             w = to_wire(rd["before"], rd["order"])
             res.count("ids:%d" % len(rd["ids"]))
             if rd["change"]:
@@ -618,12 +788,12 @@ def correspondence(ctx, res):
             if "error" in rd["same"]:
                 continue
             # 2. the run as store operations (clone under the given graph ids, bystander graph present)
-            if "store_before" in rd:
+            if "store_before" in rd and "store_after" in rd:
                 gmap = rd["same"]["adm_ids"]
-                store = [[x, (w if x == r["arm_id"] else to_wire(s_))] for x, s_ in rd["store_before"].items()]
-                add(["adms_store", store, r["arm_id"], [[d, x] for d, x in sorted(gmap.items())]], ["ok", dict(gmap), rd["store_after"]], c)
-                res.count("store:" + ("uuid" if rd["guids"] is None else "self" if r["arm_id"] in gmap.values() else
-                                      "named" if c["guids"] == "named" else "explicit"))
+                store = [[x, (w if x == this_arm else to_wire(s_))] for x, s_ in rd["store_before"].items()]
+                add(["adms_store", store, this_arm, [[d, x] for d, x in sorted(gmap.items())]], ["ok", dict(gmap), rd["store_after"]], c)
+                res.count("store:" + ("self" if this_arm in gmap.values() else c["guids"] if isinstance(c["guids"], str) else "explicit")
+                          + (":second-model" if "arm_id" in rd else ""))
             # 3. chains of re-keyings of every result
             for d, steps in rd.get("rekey", {}).items():
                 add(["rekeys", to_wire(rd["same"]["adms"][d]), [x for x, _, _ in steps]],
@@ -856,6 +1026,55 @@ def check_run(c, r, res):
                     res.violation("C13:rekey_only_key:other-graph-changed",
                                   "re-keying the partitions changed another graph of the store (%s)%s"
                                   % ("the ARM" if x == r["arm_id"] else "graph " + x, tag), case, observed=x)
+    if "second" in r:
+        rd = r["second"]
+        case = case_payload(c, r, len(r["rounds"]))
+        tag = " [a second model of the same process, partitioned after the first]"
+        check_one_partition(norm(rd["before"]), rd["same"], rd["arm_id"], rd["arm_after"], res, case, tag)
+        if norm(r["first_before_second"]) != norm(r["first_after_second"]):
+            res.violation("C13:arm_untouched:by-partition-of-another-model", "partitioning the second model changed the first model", case)
+    check_persistence(c, r, res)
+
+
+def check_persistence(c, r, res):
+    """Every partition is a model of its own and stays what it was: a later generate_adms call - on the same model or on another
+    model of the process, whatever delegation names they share - neither re-uses its graph id nor changes it, unless the CALLER
+    handed that very graph id to the later call (then the replacement is what was asked for). Also: the ids one call hands out are
+    pairwise distinct and none is a model's own id unless asked for."""
+    calls = [(rd, fin) for rd, fin in zip(calls_of(r), r.get("final", [])) if "adm_ids" in rd.get("same", {})]
+    case = case_payload(c, r, len(r["rounds"]))
+    arms = {r["arm_id"]} | ({r["second"]["arm_id"]} if "second" in r else set())
+
+    def n_of(j):
+        return "the second model" if "arm_id" in calls[j][0] else "partition call %d of the first model" % (j + 1)
+    for j, (rd, fin) in enumerate(calls):
+        asked_here = set((rd["guids"] or {}).values())
+        ids = rd["same"]["adm_ids"]
+        dup = sorted(x for x in set(ids.values()) if list(ids.values()).count(x) > 1 and x not in asked_here)
+        if dup:
+            res.violation("C13:one_model_per_id:generated-graph-id-shared", "one call generated the same graph id for two delegation ids (%s)" % n_of(j),
+                          case, observed=dup)
+        own = sorted(x for x in ids.values() if x in arms and x not in asked_here)
+        if own:
+            res.violation("C13:one_model_per_id:generated-graph-id-is-a-model", "a generated graph id is the id of an aggregate model (%s)" % n_of(j),
+                          case, observed=own)
+        for d, x in sorted(ids.items()):
+            later = calls[j + 1:]
+            asked = any(x in (l["guids"] or {}).values() for l, _ in later)
+            for i, (l, _) in enumerate(later):
+                if x in l["same"]["adm_ids"].values() and x not in (l["guids"] or {}).values():
+                    res.violation("C13:one_model_per_id:graph-id-generated-twice",
+                                  "a graph id that generate_adms generated itself was handed out before: the partition of %s for %s and a partition of %s "
+                                  "are one graph" % (n_of(j), d, n_of(j + 1 + i)), case, observed=[d, sorted(k for k, v in l["same"]["adm_ids"].items() if v == x)])
+                    break
+            if asked or "kept_end" not in rd:
+                continue
+            if norm(fin[d]) != norm(rd["kept_end"][d]):
+                A, Z = norm(rd["kept_end"][d]), norm(fin[d])
+                res.violation("C13:sub_model:earlier-partition-changed-by-later-call",
+                              "the partition for %s returned by %s is no longer what it was after the later calls (%s)"
+                              % (d, n_of(j), ", ".join(n_of(j + 1 + i) for i in range(len(later)))), case,
+                              expected="nodes %s" % sorted(A["nodes"])[:12], observed="nodes %s" % sorted(Z["nodes"])[:12])
 
 
 def oracle(ctx, res, n=None, nsynth=None):
@@ -891,7 +1110,7 @@ def replay(ctx, payload):
     r = Result()
     c = payload["case"]
     case = {"kind": "raw", "name": "replay", "wire": c["wire"], "guids": c.get("guids") or "uuid", "bystander": False,
-            "history": c.get("history") or []}
+            "history": c.get("history") or [], **({"second": c["second"]} if c.get("second") else {})}
     check_run(case, run_impl(case), r)
     sig = payload.get("signature")
     for v in r.violations:
